@@ -584,7 +584,7 @@ PINNED = [
     ("unit-conv", "en", [[lit(5), T("kb", "unit"), conn("to"), T("mb", "unit")]]),
     ("var-number", "en", [[T("x", "vardef"), op("="), lit(3)], [T("x", "var"), op("+"), lit(1)]]),
     ("date-at", "en", [[lit(5), T("march", "month"), lit(2020), conn("at"), lit("12:30")]]),
-    # known finding C16-K1: '-' directly in front of the digit
+    # '-' directly in front of the digit: date + negative duration (was C16-K1, repaired in /repo acb6397)
     ("date-arith", "en", [[lit(12), T("jul", "month"), lit(1997), op("-", ""), lit(1, ""), T("year", "dur")]]),
     ("date-arith", "en", [[lit(5), T("jan", "month"), lit(2020), op("-", ""), lit(1, ""), T("month", "dur")]]),
     # known finding C16-K2: '+' directly in front of the digit, a conversion behind the second operand
@@ -721,24 +721,17 @@ def known_class(c, rec, verdict, known):
     return hit
 
 
-K_SIGNED_DATE = "C16-sign-read-into-literal-date-minus-duration"
 K_SIGNED_CONV = "C16-sign-read-into-literal-conversion-not-matched"
 
 
 def classify(c, rw, li, rec, k):
-    """C16-K1, narrow and syntactic: the ORIGINAL writes `<date>-<n> <unit>` with the '-' directly in front of the digit
-    (the lexer reads `-n` as one signed literal and the date + (-duration) path is taken), the rewriting inserted blanks
-    at token boundaries, and both evaluations give a date (a wrong value, never an error or a panic)"""
     m = c["meta"]
-    if "blanks" in rw["kinds"] and m["kind"] in ("date-arith", "tr-date-arith") and m["minus_touch"][li]:
-        ob = exec_lines(rec, len(c["ops"]))
-        va, vb = line_value(ob[0][li]), line_value(ob[k][li])
-        if va[0] == "item" and vb[0] == "item" and va[1].get("t") == "Date" and vb[1].get("t") == "Date":
-            return K_SIGNED_DATE
     # C16-K2: the ORIGINAL writes `<operand>+<n> <word> ...` (a unit, a duration word, to/in/as <target>) with the sign
     # directly in front of the digit: the two operands become adjacent tokens and the rule / unit pattern that starts at
     # the second one is not found behind the first one
-    if "blanks" in rw["kinds"] and m.get("sign_touch_conv", [False] * (li + 1))[li]:
+    # (not for <date>-<n> <unit>: date + negative duration was C16-K1, repaired in /repo acb6397, and must pass)
+    if "blanks" in rw["kinds"] and m.get("sign_touch_conv", [False] * (li + 1))[li] \
+            and m["kind"] not in ("date-arith", "tr-date-arith"):
         return K_SIGNED_CONV
     return None
 
